@@ -24,6 +24,13 @@ TLM_SUB = {"X_1": (("S", ("L",), ("P", ("L",), ("L",))),
            "X_2": "short", "Z_A": None, "Z_B": None,
            "Zeta": (("L",), [G.entry("Q", {"Y": 5e-3, "n": 0.8})])}
 
+TLM_SUB_CONN = {"X_1": (("S", ("P", ("L",), ("L",)), ("P", ("L",), ("L",))),
+                        [G.entry("R", {"R": 2.5}), G.entry("C", {"C": 3e-5}), G.entry("R", {"R": 40.0}), G.entry("Q", {"Y": 2e-4, "n": 0.9})]),
+                "X_2": "short", "Z_A": None,
+                "Z_B": (("P", ("S", ("L",), ("L",)), ("S", ("L",), ("L",))),
+                        [G.entry("R", {"R": 7.0}), G.entry("C", {"C": 1e-4}), G.entry("R", {"R": 90.0}), G.entry("L", {"L": 1e-3})]),
+                "Zeta": (("L",), [G.entry("Q", {"Y": 5e-3, "n": 0.8})])}
+
 PALETTE_A = [
     G.entry("R", {"R": 1500.0}, name="R"),
     G.entry("R", {"R": 1234.567890123}, name="R13"),
@@ -39,10 +46,11 @@ PALETTE_A = [
     G.entry("Ws", {"Y": 0.5, "B": 2.0}, name="Ws"),
     G.entry("Tlm", {}, name="Tlm"),
     G.entry("Tlm", {"L": 2.0}, sub=TLM_SUB, name="TlmN"),
+    G.entry("Tlm", {"L": 0.5}, sub=TLM_SUB_CONN, name="TlmC"),   # sub-circuits made only of nested connections
     G.entry("Vps", {"R": 7.0}, name="Vps"),   # harness element: 0 below 2 Hz, R above (partial short)
 ]
 NAMES_A = [e["name"] for e in PALETTE_A]
-PALETTE_MID = ["R", "R0", "Rtiny", "Rinf", "C", "L", "Q", "TlmN", "Vps"]
+PALETTE_MID = ["R", "R0", "Rtiny", "Rinf", "C", "L", "Q", "TlmN", "TlmC", "Vps"]
 PALETTE_SMALL = ["R13", "R0", "Rinf", "C", "Vps"]
 
 import numpy as _np
@@ -323,8 +331,8 @@ def run(ctx) -> None:
     thorough = ctx.tier == "thorough"
     setup()
     ctx.rule = ("every canonical series/parallel skeleton (alternating S/P, arity >= 2) with <= L leaves and the object-only skeletons "
-                "(single-child connections, same-kind nesting, empty series) x every filling from a 15-entry leaf palette (resistors incl. "
-                "0, 1e-12, 1e15 and +inf ohm, C, L, L=0, Q, W, Ws, two transmission-line containers, a harness element that is a short below "
+                "(single-child connections, same-kind nesting, empty series) x every filling from a 16-entry leaf palette (resistors incl. "
+                "0, 1e-12, 1e15 and +inf ohm, C, L, L=0, Q, W, Ws, three transmission-line containers, a harness element that is a short below "
                 "2 Hz), L <= 3 quick; thorough: L <= 4 over 9 entries and L <= 5 over 5 entries; one instance of every registered class at "
                 "every leaf for L <= 2 (3); each circuit built from objects, from CDC text and with CircuitBuilder and evaluated on 6 "
                 "frequency vectors (lengths 1..31, ascending/descending/permuted, 1e-6..1e9 Hz) plus one frequency at a time; seed-selected "
